@@ -74,6 +74,11 @@ func (t *BaseTraveler) Copy() Traveler {
 		o.Path[i] = t.Path[i]
 	}
 	o.Current = t.Current
+	// a copy is the same row: what the row carries besides elements goes with it
+	o.Selections = t.Selections
+	o.Aggregation = t.Aggregation
+	o.Count = t.Count
+	o.Render = t.Render
 	return &o
 }
 
